@@ -8,6 +8,7 @@ import (
 	"testing"
 	"time"
 
+	"github.com/pkg/errors"
 	"github.com/spikeekips/mitum/base"
 	"github.com/spikeekips/mitum/isaac"
 	isaacdatabase "github.com/spikeekips/mitum/isaac/database"
@@ -107,6 +108,31 @@ func (g *c08Gate) releaseLocked() {
 	}()
 }
 
+// c08FaultPool is the real TempPool with an injected storage fault: the failAt-th SetBallot (1-based; 0 = never) fails.
+type c08FaultPool struct {
+	*isaacdatabase.TempPool
+	mu     sync.Mutex
+	calls  int
+	failAt int
+	failed int
+}
+
+func (p *c08FaultPool) SetBallot(bl base.Ballot) (bool, error) {
+	p.mu.Lock()
+	p.calls++
+	fail := p.failAt > 0 && p.calls == p.failAt
+	if fail {
+		p.failed++
+	}
+	p.mu.Unlock()
+
+	if fail {
+		return false, errors.Errorf("verif: injected pool write fault")
+	}
+
+	return p.TempPool.SetBallot(bl)
+}
+
 type c08Sent struct {
 	Point string
 	SC    bool
@@ -118,6 +144,7 @@ type c08World struct {
 	w     *bbWorld // reused for ballot construction only (its box is not used)
 	st    *isaacstates.States
 	pool  *isaacdatabase.TempPool
+	fpool *c08FaultPool
 	gate  *c08Gate
 	mimic func(base.Ballot)
 	mu    sync.Mutex
@@ -125,7 +152,7 @@ type c08World struct {
 	local base.LocalNode
 }
 
-func newC08World(n int, state isaacstates.StateType) (*c08World, error) {
+func newC08World(n int, state isaacstates.StateType, failAt int) (*c08World, error) {
 	encs, enc := gen.Encoders()
 
 	w := newBBWorld(n, 67, n) // the box's "local" is the foreign node: unused here
@@ -138,7 +165,10 @@ func newC08World(n int, state isaacstates.StateType) (*c08World, error) {
 
 	c := &c08World{w: w, pool: pool, local: local}
 
-	inner := isaacstates.NewDefaultBallotBroadcaster(local.Address(), pool, func(bl base.Ballot) error {
+	fpool := &c08FaultPool{TempPool: pool, failAt: failAt}
+	c.fpool = fpool
+
+	inner := isaacstates.NewDefaultBallotBroadcaster(local.Address(), fpool, func(bl base.Ballot) error {
 		c.mu.Lock()
 		c.sent = append(c.sent, c08Sent{
 			Point: bl.Point().String(), SC: bbIsSC(bl.SignFact().Fact()),
@@ -174,7 +204,7 @@ func TestC08(t *testing.T) {
 	r.Rule("a States in Syncing/Broken (stub current handler, hook H1) with consensus allowed and every sender a sync source; a real DefaultBallotBroadcaster over a real TempPool; " +
 		"each case delivers 2..6 real IsValid ballots of 2..4 remote nodes concurrently to the mimic-ballot function (same stage point with different facts, same fact from different nodes, " +
 		"different stage points, suffrage-confirm vs ordinary) in 1..3 phases; the harness gate holds each delivery right after its pool lookup and releases them in a drawn order; " +
-		"optionally the local node also broadcasts a ballot of its own for one of the points. Oracle: per (stage point, suffrage-confirm flag) the ballots signed by the local node that reached " +
+		"optionally the local node also broadcasts a ballot of its own for one of the points, optionally one of the first pool writes fails (injected storage fault). Oracle: per (stage point, suffrage-confirm flag) the ballots signed by the local node that reached " +
 		"the network function carry at most one fact, and the pool returns that one. non-trivial = >=2 deliveries for one stage point with different facts were inside the window together")
 	r.Floor(20)
 	r.Assume("the real consensus handlers are not booted: their check-pool-then-broadcast paths are represented by the direct Broadcast of a locally made ballot",
@@ -187,7 +217,10 @@ func TestC08(t *testing.T) {
 		n := rapid.IntRange(3, 4).Draw(rt, "n")
 		state := rapid.SampledFrom([]isaacstates.StateType{isaacstates.StateSyncing, isaacstates.StateSyncing, isaacstates.StateBroken}).Draw(rt, "state")
 
-		c, err := newC08World(n, state)
+		// a storage fault at one of the first pool writes (mostly none)
+		failAt := rapid.SampledFrom([]int{0, 0, 0, 1, 1, 2, 3}).Draw(rt, "poolFaultAt")
+
+		c, err := newC08World(n, state, failAt)
 		if err != nil {
 			rt.Fatalf("world: %v", err)
 		}
@@ -354,7 +387,8 @@ func TestC08(t *testing.T) {
 			}
 		}
 
-		r.Case(strings.Join(history, ";"), conflictInWindow, fmt.Sprintf("state:%s", state), fmt.Sprintf("conflictInWindow:%v", conflictInWindow))
+		r.Case(fmt.Sprintf("fault@%d;", failAt)+strings.Join(history, ";"), conflictInWindow, fmt.Sprintf("state:%s", state), fmt.Sprintf("conflictInWindow:%v", conflictInWindow),
+			fmt.Sprintf("poolFaultHit:%v", c.fpool.failed > 0))
 
 		if conflictInWindow && r.WantSample() {
 			c.mu.Lock()
